@@ -478,6 +478,8 @@ def run(prop_id, tier):
 
         # 1b. coverage-guided stage (atheris/libFuzzer over the same strategies and judge); the pool is idle meanwhile
         fuzz_info = None
+        # generator-health guards below are judged on the replay + enumerated + generated stages only (libFuzzer re-executes many duplicates)
+        health = {"evaluations": total.evaluations, "nontrivial": len(total.nontrivial), "labels": dict(total.labels)}
         fuzz_runs = int(os.environ.get("VERIF_FUZZ_RUNS", getattr(mod, "FUZZ", FUZZ_DEFAULT).get(tier, 0)))
         if fuzz_runs > 0:
             from pbt import fuzz as _fuzz
@@ -583,13 +585,13 @@ def run(prop_id, tier):
         return 1
     # vacuity guard: a generator that stopped producing the interesting class is a harness error
     minfrac = getattr(mod, "MIN_NONTRIVIAL_FRACTION", 0.0)
-    if total.evaluations and len(total.nontrivial) < max(2, minfrac * total.evaluations):
-        raise HarnessError("vacuous run: %d non-trivial of %d" % (len(total.nontrivial), total.evaluations))
+    if health["evaluations"] and health["nontrivial"] < max(2, minfrac * health["evaluations"]):
+        raise HarnessError("vacuous run: %d non-trivial of %d" % (health["nontrivial"], health["evaluations"]))
     req = getattr(mod, "REQUIRED_LABELS", {})
     for lab, frac in req.items():
-        if total.labels.get(lab, 0) < frac * total.evaluations:
+        if health["labels"].get(lab, 0) < frac * health["evaluations"]:
             raise HarnessError("generator health: label %r in %d of %d cases (< %.3f)"
-                               % (lab, total.labels.get(lab, 0), total.evaluations, frac))
+                               % (lab, health["labels"].get(lab, 0), health["evaluations"], frac))
     return 0
 
 
